@@ -46,6 +46,14 @@ inline std::string put_u64(uint64_t v) { return std::string(reinterpret_cast<con
 
 // handler: (request blobs) -> response blobs (without the status blob). Exceptions derived from
 // std::exception are reported as "exc:<typeid>:<what>"; anything else is reported as "exc:unknown:".
+// How an exception is named in the status. A property that says "throws X" is satisfied by any type derived from X:
+// a shim whose Python side compares the name installs a function here that maps every exception that IS-A X to X's
+// name (the default is the dynamic type's own name).
+inline std::function<std::string(const std::exception&)>& exception_namer() {
+  static std::function<std::string(const std::exception&)> f = [](const std::exception& e) { return std::string(typeid(e).name()); };
+  return f;
+}
+
 inline int serve(const std::function<Blobs(const Blobs&)>& handler) {
   // keep the protocol on private descriptors so that code under test printing to stdout cannot corrupt it
   int in = dup(0), out = dup(1);
@@ -65,7 +73,7 @@ inline int serve(const std::function<Blobs(const Blobs&)>& handler) {
     try {
       resp = handler(req);
     } catch (const std::exception& e) {
-      status = std::string("exc:") + typeid(e).name() + ":" + e.what();
+      status = std::string("exc:") + exception_namer()(e) + ":" + e.what();
       resp.clear();
     } catch (...) {
       status = "exc:unknown:";
